@@ -67,6 +67,8 @@ def _complexify(r, fvar):
         return r * (1.0 + 0.5j)
     if fvar == 'add':
         return r + 0.25j
+    if fvar == 'tinyadd':        # complex-valued is complex-valued, however small the imaginary part
+        return r + 1e-10j
     return r
 
 
@@ -101,6 +103,8 @@ def make_x(dim, base, xvar='real'):
             arr = arr + 0.25j
         elif xvar == 'last':
             arr[-1] = arr[-1] + 0.25j
+        elif xvar == 'tiny':
+            arr = arr + 1e-9j
     if dim == 0:
         return arr[0].item()
     return arr
@@ -509,8 +513,9 @@ def enumerate_cases(ctx):
                                     cases.append(dict(common, kind='complex', mis='x', xvar=xv, fvar='realpart'))
                                     for fv in ('mul', 'add'):
                                         cases.append(dict(common, kind='complex', mis='both', xvar=xv, fvar=fv))
-                                for fv in ('mul', 'add'):
+                                for fv in ('mul', 'add', 'tinyadd'):
                                     cases.append(dict(common, kind='complex', mis='f', xvar='real', fvar=fv))
+                                cases.append(dict(common, kind='complex', mis='x', xvar='tiny', fvar='real'))
                                 cases.append(dict(common, kind='control', mis='none', xvar='real', fvar='real'))
                                 # complex dtype with zero imaginary part is not a complex variable
                                 cases.append(dict(common, kind='control', mis='none', xvar='zeroimag',
@@ -639,7 +644,7 @@ def run(ctx):
     acc.extra['subspace_sizes'] = repr({k: len(v) for k, v in sorted(by_kind.items())})
     rule = ('the complete misuse menu, every element executed on the real library: {Derivative, Gradient, '
             'Jacobian, Hessdiag, Hessian} x {complex, multicomplex} x {complex x (all / only the last element '
-            'with non-zero imaginary part; f analytic or f(Re x)), complex-valued f (f*(1+0.5j), f+0.25j), both} x dimension (0..)1..3 x '
+            'with non-zero imaginary part; f analytic or f(Re x)), complex-valued f (f*(1+0.5j), f+0.25j, f+1e-10j), x+1e-9j, both} x dimension (0..)1..3 x '
             'n (Derivative: 1..4 complex, 1..2 multicomplex) x order {2, 4}; wrong number of returned values for '
             'all five classes x five methods x dimension 1..3 [' + COUNT_CONTRACT + ']; multicomplex n 3..6 '
             '(at construction and through the n setter); user generators (Min, Max, duck-typed) yielding k < '
